@@ -58,7 +58,7 @@ def run(pid, tier, seed, *, emitters, extras, sig, rule, assumptions, trace_modu
         for o in out:                      # a driver may expand one task into many records
             flat += o["_many"] if isinstance(o, dict) and "_many" in o else [o]
         out = flat
-        if any("_many" in r or r.get("kind") in ("gradbatch",) for r in recs):
+        if any("_many" in r or r.get("kind") in ("gradbatch", "sysgradbatch") for r in recs):
             n_tlc = sum(1 for o in out if o.get("src", "tlc") == "tlc")
         rej, acc, res = tracecheck.validate(trace_module, TRACE_CFG, out, sc, "tr" + pid, chunk=chunk)
         if any(isinstance(p, dict) and p.get("tag") == "LEMMA" for r in res for p in r.prints):
